@@ -163,7 +163,9 @@ class State(Sized):
         value_vars: dict[str, Any] = dict(self.default_values, **args)
         for name in state_vars:
             if name not in value_vars:
-                value_vars[name] = np.nan
+                # Missing value, not-a-time for a time variable
+                is_time = np.dtype(self.dtypes[name]).kind == "M"
+                value_vars[name] = np.datetime64("NaT") if is_time else np.nan
 
         # Broadcast all variables to 1D arrays
         #    Raise ValueError if not compatible
@@ -179,6 +181,16 @@ class State(Sized):
             for var, v in value_vars.items()
         }
 
+        # Make all the extended arrays before the state is changed
+        new_variables = dict()
+        for var in state_vars:
+            new_values = np.asarray(values[var])
+            if var in args or var in self.default_values:
+                # Given values take the declared type of the variable
+                # (a 0/1 flag column is boolean, a time given as text is a time)
+                new_values = new_values.astype(self.dtypes[var])
+            new_variables[var] = np.concatenate((self.variables[var], new_values))
+
         # pid must be handles separately
         self.variables["pid"] = np.concatenate(
             (
@@ -187,15 +199,7 @@ class State(Sized):
             )
         )
         self.npid = self.npid + num_new_particles
-
-        # Concatenate the rest of the variables
-        for var in state_vars:
-            new_values = np.asarray(values[var])
-            if var in args or var in self.default_values:
-                # Given values take the declared type of the variable
-                # (a 0/1 flag column is boolean, a time given as text is a time)
-                new_values = new_values.astype(self.dtypes[var])
-            self.variables[var] = np.concatenate((self.variables[var], new_values))
+        self.variables.update(new_variables)
 
         logger.debug("Total number of particles = %d", len(self))
 
